@@ -12,7 +12,7 @@ def spec(tier):
         octs = ",".join("oct:%d" % n for n in (0, 1, 16, 31, 32, 33, 47, 48, 49, 63, 64, 65, 96, 128, 160))
         rsas = "rsa:1024,rsa:2047,rsa:2048"
     # the same short keys spelled non-canonically in the JWK ('=' padding, characters after the padding): the floor is about the key's bytes
-    octs += ",octpad:31,octpad:46,octpad:47,octpad:62,octpad:32,octjunk:1,octjunk:16,octjunk:31,octjunk:47,octjunk:64"
+    octs += ",octnl:32,octnl:48,octnl:64,octnl:33,octz:32,octz:64,octpad:31,octpad:46,octpad:47,octpad:62,octpad:32,octjunk:1,octjunk:16,octjunk:31,octjunk:47,octjunk:64"
     keys = "%s,%s,ec:P-256,ec:P-384,ec:P-521,ec:secp256k1,ec:brainpoolP512r1,ec:brainpoolP384r1,ec:brainpoolP256r1,okp:Ed25519,okp:Ed448,okp:X25519" % (octs, rsas)
     # every alg both as explicit alg (key without alg) and as key alg attribute (no explicit alg); tokens signed by the
     # harness with the weak key for every header alg the key's family can sign
